@@ -67,3 +67,98 @@ fn u10_stair_s4() {
 fn u10_stair_s9() {
     stair(9);
 }
+
+// ---- hold + normal notes: the column search is only entered when a free column exists ------------------------------
+
+/// Contract stub for `find_available_column` (whose real body retries random columns until one is free - a loop
+/// without a static bound): checks the callee's precondition "a valid column exists" at the call site and returns
+/// an arbitrary valid column.
+fn contract_find_available_column<'h>(
+    this: &mut PathObjectPatternGenerator<'h>,
+    initial_column: u8,
+    validation: Option<&dyn Fn(i32) -> bool>,
+    patterns: &[&Pattern],
+) -> u8
+where
+    'h: 'h,
+{
+    let lower = this.inner.random_start();
+    let upper = this.inner.total_columns;
+    let valid = |c: i32| -> bool {
+        if let Some(f) = validation {
+            if !f(c) {
+                return false;
+            }
+        }
+        let mut k = 0;
+        while k < patterns.len() {
+            if patterns[k].column_has_obj(c as u8) {
+                return false;
+            }
+            k += 1;
+        }
+        true
+    };
+    if valid(i32::from(initial_column)) {
+        return initial_column;
+    }
+    let mut any_valid = false;
+    let mut c = lower;
+    while c < upper {
+        if valid(c) {
+            any_valid = true;
+        }
+        c += 1;
+    }
+    assert!(any_valid, "C05 find_available_column is only called when a free column exists (its assert!(has_valid_column) cannot fire)");
+    let pick: i32 = kani::any();
+    kani::assume(lower <= pick && pick < upper && valid(pick));
+    pick as u8
+}
+
+fn hold_and_normal(span_count: i32) {
+    let total_columns: i32 = kani::any();
+    kani::assume(total_columns >= 2 && total_columns <= 10);
+    let x: f32 = kani::any();
+    kani::assume(x >= 0.0 && x <= 512.0);
+    let h = HitObject { pos: Pos::new(x, 192.0), start_time: 1000.0, kind: HitObjectKind::Circle };
+    let map = Beatmap::default();
+    let mut random = Random::new(kani::any());
+    let prev = Pattern::default();
+    let sounds: [HitSoundType; 3] = [HitSoundType::default(); 3];
+    let seg: i32 = kani::any();
+    kani::assume(seg > 200 && seg <= 400);
+    let mut gen = PathObjectPatternGenerator {
+        segment_duration: seg,
+        sample: HitSoundType::default(),
+        inner: PatternGenerator::new(&h, total_columns, &mut random, &map),
+        start_time: 1000,
+        end_time: 1000 + seg * span_count,
+        span_count,
+        prev_pattern: &prev,
+        convert_type: PatternType::default(),
+        node_sounds: &sounds,
+    };
+    let conversion_diff: f64 = kani::any();
+    kani::assume(conversion_diff >= 0.0 && conversion_diff <= 12.0);
+    let pattern = gen.generate_hold_and_normal_notes(1000, conversion_diff);
+    let divisor = 512.0 / total_columns as f32;
+    let mut i = 0;
+    while i < pattern.hit_objects.len() {
+        let raw = (pattern.hit_objects[i].pos.x / divisor).floor();
+        assert!(raw >= 0.0 && raw < total_columns as f32, "C19 every generated note lies in a column below the key count");
+        i += 1;
+    }
+    std::mem::forget(pattern);
+}
+
+//@ obl: id=U10.hold_and_normal.s1 harness=u10_hold_and_normal_s1 stubs=yes props=C05,C19 tier=thorough kind=bounded budget=1800
+//@ fns: PathObjectPatternGenerator::generate_hold_and_normal_notes (call sites of find_available_column), PatternGenerator::get_random_note_count
+//@ bound: bounded: span count 1 (two rows); key count 2..=10, x in [0,512], any RNG seed, conversion difficulty in [0,12]; find_available_column replaced by a contract stub that asserts its precondition
+//@ clause: in generate_hold_and_normal_notes the per-row note count is clamped so that a free column (other than the hold note's) always exists when find_available_column is called - its assert!(has_valid_column) cannot fire, so a 2K..10K conversion of a repeat slider cannot panic there; every generated note is in a column below the key count
+#[kani::proof]
+#[kani::unwind(14)]
+#[kani::stub(PathObjectPatternGenerator::find_available_column, contract_find_available_column)]
+fn u10_hold_and_normal_s1() {
+    hold_and_normal(1);
+}
